@@ -106,8 +106,22 @@ def gen_e2e(rng, n_cases):
             nested = [[100 + j, rng.choice([0, 50, 500]), rng.randint(0, tmax) * 1000] for j in range(rng.choice([1, 2]))]
         vanish = rng.choice([None, None, 0, 1, 2])     # the k-th deletion finds a stale folder: deleted, then OSError(ESTALE)
         cases.append({"mode": "e2e", "entries": entries, "orphans": orphans, "bl": bl, "il": il, "al": al, "now": now,
-                      "vanish": vanish, "stale": stale, "nested": nested, "symlink": rng.random() < 0.25, "loc": rng.choice(["abs", "abs", "hex", "rel", "relsub"])})
+                      "vanish": vanish, "stale": stale, "nested": nested, "symlink": rng.random() < 0.25, "loc": rng.choice(["abs", "abs", "hex", "rel", "relsub"]),
+                      "base": rng.choice(["2020", "2020", "epoch"]), "verbose": rng.choice([0, 0, 0, 1, 11, 60])})
     return cases
+
+
+# fixed end-to-end witnesses (run first): the least recently used entry was last read at the EPOCH itself (access time
+# exactly 0.0: a cache restored from an archive with zeroed timestamps) and one entry has to go; the same store with the
+# chattiest verbosity (every deletion is reported on the way); a store where everything has to go
+FIXED_E2E = [
+    {"mode": "e2e", "entries": [[1, 50, 2000], [2, 50, 0], [3, 50, 1000], [4, 50, 3000]], "orphans": [], "bl": None, "il": 3,
+     "al": None, "now": 4000, "vanish": None, "stale": [], "nested": [], "symlink": False, "loc": "abs", "base": "epoch", "verbose": 0},
+    {"mode": "e2e", "entries": [[1, 50, 2000], [2, 50, 0], [3, 50, 1000], [4, 50, 3000]], "orphans": [], "bl": None, "il": 2,
+     "al": None, "now": 4000, "vanish": None, "stale": [], "nested": [], "symlink": False, "loc": "abs", "base": "2020", "verbose": 60},
+    {"mode": "e2e", "entries": [[1, 500, 1000], [2, 0, 0]], "orphans": [["meta", 500]], "bl": 0, "il": None,
+     "al": None, "now": 2000, "vanish": None, "stale": [], "nested": [], "symlink": False, "loc": "rel", "base": "epoch", "verbose": 11},
+]
 
 
 # ------------------------------------------------------------------- model
@@ -253,7 +267,7 @@ def run(ctx):
     n_unit = 1500 if quick else 20000
     n_e2e = 40 if quick else 400
     unit = gen_unit(ctx.rng, n_unit)
-    e2e = gen_e2e(ctx.rng, n_e2e)
+    e2e = FIXED_E2E + gen_e2e(ctx.rng, n_e2e)
     # corpus first
     corpus_path = os.path.join(common.ROOT, "corpus", "c18.jsonl")
     if os.path.exists(corpus_path):
